@@ -1283,13 +1283,25 @@ sf_command	(SNDFILE *sndfile, int command, void *data, int datasize)
 
 		/* Lite remove start */
 		case SFC_TEST_IEEE_FLOAT_REPLACE :
-			psf->ieee_replace = (datasize) ? SF_TRUE : SF_FALSE ;
-			if ((SF_CODEC (psf->sf.format)) == SF_FORMAT_FLOAT)
-				float32_init (psf) ;
-			else if ((SF_CODEC (psf->sf.format)) == SF_FORMAT_DOUBLE)
-				double64_init (psf) ;
-			else
-				return (psf->error = SFE_BAD_COMMAND_PARAM) ;
+			{	/*
+				** The init functions install the conversion functions, but they also
+				** derive the data length and the frame count from the length the file
+				** had when it was opened. Keep what the handle has reached since then.
+				*/
+				sf_count_t frames = psf->sf.frames ;
+				sf_count_t datalength = psf->datalength ;
+
+				psf->ieee_replace = (datasize) ? SF_TRUE : SF_FALSE ;
+				if ((SF_CODEC (psf->sf.format)) == SF_FORMAT_FLOAT)
+					float32_init (psf) ;
+				else if ((SF_CODEC (psf->sf.format)) == SF_FORMAT_DOUBLE)
+					double64_init (psf) ;
+				else
+					return (psf->error = SFE_BAD_COMMAND_PARAM) ;
+
+				psf->sf.frames = frames ;
+				psf->datalength = datalength ;
+				} ;
 			break ;
 		/* Lite remove end */
 
